@@ -337,7 +337,52 @@ def check_C12(ctx):
         return toks
     n2 = run_histories(ctx, pool, mcases, lambda o: o.startswith(('A1:', 'A3:')), 'variant-mixed-histories',
                        'Variant<float,Tr<1>,int,Tr<3>>: active alternative after every step = model v_step', project=active_only, extra_oracle=variant_post_state)
-    return finish_with_proofs(ctx, {'variant_histories': n, 'variant_mixed_trivial_histories': n2})
+    # a Variant over CONVERTIBLE element types (Variant<float, TcA, int, TcB>; SrcA converts to TcA only, SrcB to TcB only):
+    # converting construction (K) and assignment (k) from a non-alternative type, construction (O copy, P move) and
+    # assignment (o copy, q move) from another Variant type Variant<SrcA, SrcB, float, int>, mixed with the ordinary
+    # operations; get<I>, std::get and IfAnyOf are checked in every state.  Each operation is translated to the
+    # model's operation with the same effect (which alternative, which value) and the two are compared as above.
+    def conv_ops(objs, vals):
+        ops = []
+        for i in objs:
+            for x in vals:
+                for k in (1, 3):
+                    ops += ['K%d:%d:%d' % (i, k, x), 'k%d:%d:%d' % (i, k, x)]
+                for j in (-1, 0, 1, 2, 3):
+                    ops += ['O%d:%d:%d' % (i, j, x), 'P%d:%d:%d' % (i, j, x), 'o%d:%d:%d' % (i, j, x), 'q%d:%d:%d' % (i, j, x)]
+        return ops
+
+    def to_model(op):
+        c, a = op[0], op[1:].split(':')
+        if c in 'Kk':
+            return ('V' if c == 'K' else 's') + '%s:%s:%s:0' % (a[0], a[1], a[2])
+        if c in 'OP':      # construction picks the FIRST alternative constructible from the source: an int lands in the float
+            j = int(a[1])
+            return 'N' + a[0] if j == -1 else 'V%s:%d:%s:0' % (a[0], {0: 1, 1: 3, 2: 0, 3: 0}[j], a[2])
+        if c in 'oq':      # assignment of an alternative type assigns that alternative: an int lands in the int
+            j = int(a[1])
+            return 'e' + a[0] if j == -1 else 's%s:%d:%s:0' % (a[0], {0: 1, 1: 3, 2: 0, 3: 2}[j], a[2])
+        return op
+    calpha = conv_ops([0, 1], [7]) + var_alphabet([0, 1], [1, 2], [5], [-1, 3], [0])
+    crnd = conv_ops([0, 1, 2], [1, 2, 3]) + var_alphabet([0, 1, 2], [0, 1, 2, 3], [1, 2], [-2, -1, 0, 1, 2, 3, 4], [0, 0, 1])
+    csetups = [[], ['N0'], ['K0:1:5'], ['K0:3:5', 'N1'], ['V0:1:5:0', 'K1:3:6'], ['O0:2:5', 'V1:3:6:0'], ['K0:1:5', 'P1:1:6', 'V2:2:4:0']]
+    ccases = [nothrow_trivial(sq) for k, sq in histories(ctx, calpha, csetups, crnd, ['varc'], 2 if ctx.quick else 3, 3000 if ctx.quick else 60000, 16 if ctx.quick else 40)]
+    hl = ['varc ' + ','.join(sq) for sq in ccases]
+    ml = ['varm ' + ','.join(to_model(op) for op in sq) for sq in ccases]
+    ho, mo = run_objs(pool, hl), run_driver(pool, ml)
+    cbroken = []
+    for line, mline, o, m in zip(hl, ml, ho, mo):
+        ctx.count('variant-convertible-histories', line)
+        if o.startswith(BADOUT):
+            ctx.violate('memory-error', 'variant-convertible-histories: crashed or tripped a sanitizer: %s -> %s' % (line[:200], o[:300]), {'case': line, 'output': o})
+            continue
+        v = lifetime_oracle(o, lambda t: t.startswith(('A1:', 'A3:'))) or variant_post_state(mline, o)
+        if v:
+            ctx.violate('lifetime:varc', 'variant-convertible-histories: %s; history: %s (as model operations: %s)' % (v, line[:300], mline[:300]), {'case': line, 'as_model_ops': mline, 'output': o, 'model': m})
+        elif not m.startswith('DRIVER') and active_only(o) != active_only(m):
+            cbroken.append({'case': line, 'hraw': o, 'mraw': m})
+    report_broken(ctx, cbroken, 'variant-convertible-histories', 'Variant<float,TcA,int,TcB> with converting operations: active alternative after every step = model v_step')
+    return finish_with_proofs(ctx, {'variant_histories': n, 'variant_mixed_trivial_histories': n2, 'variant_convertible_histories': len(hl)})
 
 
 # ------------------------------------------------------------------ C15 -----
@@ -468,6 +513,29 @@ def check_C15(ctx):
         elif not m.startswith('DRIVER') and body != m:
             fbroken.append({'case': line, 'hraw': o, 'mraw': m})
     report_broken(ctx, fbroken, 'uniquefilehandle-histories', 'UniqueFileHandle values, ::close calls and release() results after every step = model h_step')
+    no = run_objs(pool, ['ufhnamed -'])[0]
+    ctx.count('uniquefilehandle-named-constructors', 'ufhnamed')
+    if no != 'named=ok':
+        ctx.violate('lifetime:ufh-named', 'UniqueFileHandle::Open / OpenAt / AsDuplicate: the returned owner does not own exactly one new descriptor and close exactly that: ' + no[:300],
+                    {'case': 'ufhnamed', 'output': no})
+    # ---- and over the library's own DefaultHandlePolicy (empty value -1; Close only resets): values and release() results
+    dseqs = [s for s in fseqs if not any(op[0] == 'V' and int(op.split(':')[1]) < -1 for op in s)]
+    dl = [','.join(s) for s in dseqs]
+    do = run_objs(pool, ['udh ' + l for l in dl])
+    dm = run_driver(pool, ['uh ' + l for l in dl])
+    dbroken = []
+    noclose = lambda out: ' '.join((t if t == 'skip' else ('end=-|' + t.split('|')[1] if t.startswith('end=') else '|'.join([t.split('|')[0], '-', t.split('|')[2]]))) for t in out.split(' '))
+    for l, o, m in zip(dl, do, dm):
+        line = 'udh ' + l
+        ctx.count('defaultpolicy-histories', line)
+        if o.startswith(BADOUT):
+            ctx.violate('memory-error', 'UniqueHandle<DefaultHandlePolicy> history crashed: %s -> %s' % (line[:200], o[:300]), {'case': line, 'output': o})
+        elif 'INCONSISTENT' in o:
+            ctx.violate('lifetime:udh', 'UniqueHandle<DefaultHandlePolicy>: operator bool disagrees with get(); history: %s -> %s' % (line[:300], o[:200]), {'case': line, 'output': o})
+        elif not m.startswith('DRIVER') and o != noclose(m):
+            # moved-from / closed / released handles must be empty and release() must hand out exactly what was owned
+            ctx.violate('lifetime:udh', 'UniqueHandle<DefaultHandlePolicy>: the handles or the values handed out by release() differ from the ownership history: %s -> %s, expected %s' %
+                        (line[:300], o[:300], noclose(m)[:300]), {'case': line, 'output': o, 'model': m})
     # ---- the out-of-band channel: every handle-bearing type of the pool
     tids = [i for i in range(len(pool.types)) if 'handle' in pool.caps[i]]
     nvals = 40 if ctx.quick else 600
@@ -848,6 +916,21 @@ def check_C14(ctx):
             a = parse_actions(o)[0]
             if a['disp'] != str(code):
                 ctx.violate('dispatch', 'the reply writer failed with %d at its call %d but the dispatcher returned status %s: %s' % (code, kk, a['disp'], line[:300]), {'case': line, 'output': o})
+    # InterfaceBindings::Match answers "is a handler bound to this selector" for every selector of the interface and two
+    # foreign ones; GetInterfaceName returns the declared name
+    for s, (k, pk, bs) in enumerate(sets):
+        b = binary(pk)
+        if b == 'rpcp' and os.path.exists(perr):
+            continue
+        line = 'rpc %d %d %d | M' % (k, s, 0 if pk in ('tag', 'insttag') else -1)
+        o = run_parallel([os.path.join(pool.dir, b)], [line], env=ASAN_ENV, what=b)[0]
+        ctx.count('match-and-name:set%d' % s, line)
+        bound = {m for m, kind, hats in bs}
+        want = ''.join('1' if m in bound else '0' for m in range(len(ifaces[k]['methods']))) + '00'
+        f = sx.fields(o) if not o.startswith(BADOUT) else {}
+        if f.get('match') != want or f.get('iname') != ifaces[k]['name'].encode().hex():
+            ctx.violate('match', 'dispatch table %d of interface %r: Match over its selectors and two foreign ones gives %s (bound methods: %s), GetInterfaceName gives %s: %s' %
+                        (s, ifaces[k]['name'], f.get('match'), want, f.get('iname'), o[:200]), {'case': line, 'output': o, 'expected_match': want})
     return finish_with_proofs(ctx, {'interfaces': len(ifaces), 'dispatch_tables': len(sets), 'call_sequences': len(cases), 'raw_requests': len(lines2), 'reply_writer_faults': len(rf2)})
 
 
